@@ -635,6 +635,53 @@ def r3b_cast_always_converted(run, F):
            "the PrimitiveCast arm of the generator is exactly the call of generate_primitive_cast")
 
 
+def r14_d128_sign_test(run, F):
+    from rules.core import CannotAnalyse
+    """`format_d128` prints a 128-bit integer as `-` + |value| by *skipping* the minus sign of its snprintf template when the value is
+    not negative: the one signed comparison of the value with the constant zero decides both the absolute value (harmless for 0) and
+    whether the `-` is printed.  Zero therefore has to fall on the same side of that comparison as 1 and on the other side than -1;
+    a strict predicate (`> 0`) prints an i128 that is exactly 0 as `-0`.  Decided by evaluating the predicate constant and the operand
+    order of every signed LLVMBuildICmp of the function at -1, 0 and 1 (any equivalent spelling passes: `>= 0`, `0 <= v`, `< 0` with
+    the selects swapped)."""
+    from rules import origins as _or
+    b = F.body("alpha::generator::format_d128")
+    defs = _or.definitions(b["hir"], b.get("params", ()))
+
+    def resolve(e, depth=4):
+        e = hirq.unwrap_trivial(e)
+        while depth and e.get("k") == "Path" and e.get("rk") == "Local" and len(defs.get(e.get("lid"), [])) == 1 and defs[e["lid"]][0][1] == () and defs[e["lid"]][0][0] is not None:
+            e = hirq.unwrap_trivial(defs[e["lid"]][0][0])
+            depth -= 1
+        return e
+
+    def is_zero(e):
+        e = resolve(e)
+        if e.get("k") == "Call" and (hirq.callee(e) or "").endswith("LLVMConstInt") and len(e.get("a", [])) >= 2:
+            lits = [n.get("v") for n in walk(e["a"][1]) if n.get("k") == "Lit"]
+            return len(lits) == 1 and str(lits[0]).rstrip("u64_ ").strip() in ("0",)
+        return False
+    PRED = {"LLVMIntSGE": lambda a, c: a >= c, "LLVMIntSGT": lambda a, c: a > c, "LLVMIntSLE": lambda a, c: a <= c, "LLVMIntSLT": lambda a, c: a < c}
+    n = 0
+    for c in hirq.calls(b["hir"]):
+        if not (hirq.callee(c) or "").endswith("LLVMBuildICmp") or len(c.get("a", [])) < 4:
+            continue
+        pe = resolve(c["a"][1])
+        name = str(pe.get("res") or pe.get("path") or "").split("::")[-1] if pe.get("k") == "Path" else None
+        if name is None:
+            raise CannotAnalyse("R14-D128-SIGN-TEST: the predicate of an LLVMBuildICmp in format_d128 is not a constant")
+        if name not in PRED:
+            continue
+        lz, rz = is_zero(c["a"][2]), is_zero(c["a"][3])
+        if lz == rz:
+            raise CannotAnalyse("R14-D128-SIGN-TEST: a signed comparison in format_d128 is not against the constant zero")
+        n += 1
+        at = {v: (PRED[name](v, 0) if rz else PRED[name](0, v)) for v in (-1, 0, 1)}
+        run.ob("R14-D128-SIGN-TEST", "zero is not negative", at[0] == at[1] and at[-1] != at[1], F.where(b, c),
+               "the sign test of format_d128 (%s with zero on the %s) puts 0 with 1 and apart from -1: it answers %s for -1, %s for 0, %s for 1"
+               % (name, "right" if rz else "left", at[-1], at[0], at[1]))
+    run.floor("R14-D128-SIGN-TEST", 1, "signed comparison with zero in format_d128")
+
+
 def check(run):
     F = run.facts("B")
     r3b_cast_always_converted(run, F)
@@ -644,6 +691,7 @@ def check(run):
     r10_step_chaining(run, F)
     r1_binary(run, F)
     r2_comparison(run, F)
+    r14_d128_sign_test(run, F)
     r3_conversion(run, F)
     r4_signed(run, F)
     c16.r5_agree(run, F)
